@@ -39,7 +39,7 @@ def ensure_harness():
     """(Re)build the Rust harness against /repo's current working tree."""
     global _built
     if _built:
-        return os.path.join(HARNESS, "target", "release")
+        return os.path.join(_target_dir(), "release")
     t0 = time.time()
     env = dict(os.environ)
     env["CARGO_NET_OFFLINE"] = "true"
